@@ -7,7 +7,22 @@ World *W = 0;
 static World g_idle_world;   // used when the library calls a seam outside a run (never has faults)
 static World *world() { return W ? W : &g_idle_world; }
 
+// S6b: what an operation finds in stack memory it never wrote is part of the simulated world too.  A long-lived worker and
+// a fresh replay process reach an operation over different call histories; without this the bytes below the current frame
+// would differ between them, and a library read of an uninitialised local would replay differently.  The pattern follows
+// the allocator's fill pattern, so the C17 twin runs vary it.
+#if defined(__clang__)
+__attribute__((noinline, no_sanitize("address")))
+#else
+__attribute__((noinline))
+#endif
+static void scrub_stack(int pat) {
+	volatile char buf[384 * 1024];
+	memset((void *)buf, pat, sizeof buf);
+	__asm__ volatile("" : : "r"(buf) : "memory");
+}
 void World::begin_op(const Op *op) {
+	{ unsigned char b = fill_on ? (unsigned char)(0xA5 ^ (fill_seed * 37u)) : 0; if (fill_on && !b) b = 0x5A; scrub_stack(b); }
 	cur_op = op; reads_in_op = 0; limit_at_read = -1; jump = 0;
 	log.clear(); log_marks.clear(); stage = 0; stages.clear(); copy_mismatch.clear();
 	expected_paths.clear(); cancel_at = -1; reporter_calls = 0; max_eof_polls = 0; eof_polls = 0;
